@@ -34,9 +34,6 @@ func VH_RT_lzma() {
 	variant := vConcretize(int(vNondetU8("variant")) % 12)
 	vAssume(variant%vShards() == vShardIdx())
 	props := vPropSet[variant%6]
-	if vThorough() && variant%6 == 2 {
-		props = Properties{8, 4, 4} // largest literal table (0x300<<12 cells)
-	}
 	cfg := WriterConfig{Properties: &props, DictCap: 4096, BufSize: 4096}
 	if variant >= 6 {
 		cfg.Matcher = BinaryTree
